@@ -219,6 +219,8 @@ BOTTOM = Bottom()
 UNIT = Tuple([])
 OPT_SOME = "std::prelude::v1::Some"
 OPT_NONE = "std::prelude::v1::None"
+RES_OK = "std::prelude::v1::Ok"
+RES_ERR = "std::prelude::v1::Err"
 
 
 def show_cond(c):
@@ -350,6 +352,53 @@ def mapn(op, args):
             return mk_ite_c(a.c, mapn(op, ta), mapn(op, fa))
     if any(isinstance(a, Bottom) for a in args):
         return BOTTOM
+    return op(*args)
+
+
+def hoist(v):
+    """Case tree equivalent to v whose leaves contain no Ite (conditions pulled out of struct/tuple fields)."""
+    if isinstance(v, Ite):
+        return mk_ite_top(v.c, hoist(v.t), hoist(v.f))
+    if isinstance(v, Struct):
+        ks = list(v.fields)
+        fs = [hoist(v.fields[k]) for k in ks]
+        return _mapn_top(lambda *xs: Struct(v.path, dict(zip(ks, xs))), fs)
+    if isinstance(v, Tuple):
+        return _mapn_top(lambda *xs: Tuple(list(xs)), [hoist(x) for x in v.items])
+    if isinstance(v, Array):
+        return _mapn_top(lambda *xs: Array(list(xs)), [hoist(x) for x in v.items])
+    return v
+
+
+def _restrict_top(v, c, pol):
+    """restrict() for hoisted trees: never re-merges structures field-wise."""
+    if isinstance(v, Ite):
+        if v.c == c:
+            return _restrict_top(v.t if pol else v.f, c, pol)
+        t = _restrict_top(v.t, c, pol)
+        f = _restrict_top(v.f, c, pol)
+        if t is v.t and f is v.f:
+            return v
+        return t if val_eq(t, f) else Ite(v.c, t, f)
+    return v
+
+
+def mk_ite_top(c, t, f):
+    t = _restrict_top(t, c, True)
+    f = _restrict_top(f, c, False)
+    if val_eq(t, f):
+        return t
+    return Ite(c, t, f)
+
+
+def _mapn_top(op, args):
+    for i, a in enumerate(args):
+        if isinstance(a, Ite):
+            ta = [_restrict_top(x, a.c, True) for x in args]
+            ta[i] = a.t
+            fa = [_restrict_top(x, a.c, False) for x in args]
+            fa[i] = a.f
+            return mk_ite_top(a.c, _mapn_top(op, ta), _mapn_top(op, fa))
     return op(*args)
 
 
@@ -686,6 +735,9 @@ class Return(Exception):
     pass
 
 
+# std methods that take `&mut self` only to hand out a pointer / reference: no state change by the call itself
+_PURE_MUT_METHODS = {"as_mut_ptr", "as_mut_slice", "as_mut", "deref_mut", "borrow_mut", "get_mut", "iter_mut", "first_mut", "last_mut",
+                     "as_mut_ref", "get_unchecked_mut", "split_at_mut"}
 _WIDE_METHODS = {
     "splat": "id.", "cmp_eq": "cmp.==", "cmp_ne": "cmp.!=", "cmp_lt": "cmp.<", "cmp_le": "cmp.<=", "cmp_gt": "cmp.>", "cmp_ge": "cmp.>=",
     "blend": "select", "mul_add": "mul_add", "mul_sub": "mul_sub", "min": "fn1.min", "max": "fn1.max",
@@ -705,6 +757,7 @@ class Frame:
         self.tsubst = tsubst
         self.depth = depth
         self.returns = []  # list of (pc boolean tree, value)
+        self.panic_pcs = []  # path conditions under which the body diverges
         self.pc = True
         self.dead = False
 
@@ -747,6 +800,11 @@ class Evaluator:
         res = v
         for pc, rv in reversed(fr.returns):
             res = mk_ite(pc, rv, res)
+        for pc in reversed(fr.panic_pcs):
+            if pc is True:
+                return BOTTOM
+            if pc is not False:
+                res = mk_ite(pc, BOTTOM, res)
         return res
 
     def fresh_for_pat(self, p, prefix=""):
@@ -907,6 +965,8 @@ class Evaluator:
             return ent[1]
         if r["k"] == "def":
             dk = r["dk"]
+            if dk == "ConstParam":
+                return self.ctx.sym("const:" + self.S[r["d"]].split("::")[-1])
             if dk.startswith("Const") or dk.startswith("AssocConst"):
                 return self.const_value(r["c"], fr, e)
             if dk.startswith("Ctor"):
@@ -1445,6 +1505,11 @@ class Evaluator:
 
     # ---- calls -------------------------------------------------------------------
     def ev_call(self, e, fr):
+        if self.F.ty(e) == "!":
+            # panic / unreachable / assert_failed: this path diverges
+            fr.dead = True
+            fr.panic_pcs.append(fr.pc)
+            return BOTTOM
         if "ctor" in e:
             path = self.S[e["ctor"]] if isinstance(e["ctor"], int) else e["ctor"]
             if path == "Self":
@@ -1539,7 +1604,7 @@ class Evaluator:
         # 4. uninterpreted; places passed by `&mut` receive an uninterpreted update
         nm = self.app_name(rpath, c, fr)
         res = self.uninterpreted(nm, args)
-        if not isinstance(nm, tuple):
+        if not isinstance(nm, tuple) and name not in _PURE_MUT_METHODS:
             for i, a in enumerate(raw_args):
                 if isinstance(a, MutRef):
                     self.assign(a.target, self.uninterpreted("mut%d:%s" % (i, nm), args), a.frame)
@@ -2057,6 +2122,38 @@ class Evaluator:
             return mk_ite(lt, mk("Less"), mk_ite(eq, mk("Equal"), mk("Greater")))
         return map2(leaf, a, b)
 
+    def res_case(self, v, ok_f, err_f, fr):
+        v = self.deref(v)
+        if isinstance(v, Ite):
+            return mk_ite_c(v.c, self.res_case(v.t, ok_f, err_f, fr), self.res_case(v.f, ok_f, err_f, fr))
+        if isinstance(v, Struct):
+            tail = v.path.split("::")[-1]
+            if tail == "Ok":
+                return ok_f(v.fields["0"], fr)
+            if tail == "Err":
+                return err_f(v.fields["0"], fr)
+        if isinstance(v, Bottom):
+            return v
+        raise Opaque("Result operation on %r" % (v,))
+
+    def op_res_unwrap(self, args, fr, c, e):
+        return self.res_case(args[0], lambda x, f2: x, lambda x, f2: BOTTOM, fr)
+
+    def op_res_is_ok(self, args, fr, c, e):
+        return self.res_case(args[0], lambda x, f2: True, lambda x, f2: False, fr)
+
+    def op_res_is_err(self, args, fr, c, e):
+        return self.res_case(args[0], lambda x, f2: False, lambda x, f2: True, fr)
+
+    def op_res_ok(self, args, fr, c, e):
+        return self.res_case(args[0], lambda x, f2: Struct(OPT_SOME, {"0": x}), lambda x, f2: Struct(OPT_NONE, {}), fr)
+
+    def op_res_map(self, args, fr, c, e):
+        return self.res_case(args[0], lambda x, f2: Struct(RES_OK, {"0": self.apply(args[1], [x], f2)}), lambda x, f2: Struct(RES_ERR, {"0": x}), fr)
+
+    def op_res_map_err(self, args, fr, c, e):
+        return self.res_case(args[0], lambda x, f2: Struct(RES_OK, {"0": x}), lambda x, f2: Struct(RES_ERR, {"0": self.apply(args[1], [x], f2)}), fr)
+
     def op_phantom(self, args, fr, c, e):
         return Struct("PhantomData", {})
 
@@ -2219,6 +2316,10 @@ for _t in ("std", "core"):
     for _m in ("map_or", "map_or_else", "map", "unwrap_or", "unwrap_or_else", "unwrap", "is_some", "is_none"):
         _reg(["%s::option::Option::<T>::%s" % (_t, _m)], "opt_" + _m)
     _reg(["%s::option::Option::<T>::expect" % _t], "opt_unwrap")
+for _t in ("std", "core"):
+    for _m in ("unwrap", "is_ok", "is_err", "ok", "map", "map_err"):
+        _reg(["%s::result::Result::<T, E>::%s" % (_t, _m)], "res_" + _m)
+    _reg(["%s::result::Result::<T, E>::expect" % _t], "res_unwrap")
 _reg(["cast::array::into_array"], "into_array")
 _reg(["cast::array::into_array_mut"], "into_array_mut")
 _reg(["num::Real::from_f64", "num::FromScalar::from_scalar"], "id.")
